@@ -805,6 +805,24 @@ func buildScenarios(r *vf.Run) []*scenario {
 		sc.WantNew = &kv{Present: true, Val: newVal}
 		out = append(out, sc)
 	}
+	// values whose last bytes are what a text tool would strip (line break, blank, NUL), as the old and as the new value
+	addSetTail := func(tail string, oldToo bool, nw int) {
+		sc := &scenario{Kind: "set", Class: "value-ends-in-" + fmt.Sprintf("%q", tail), Target: "k", ID: fmt.Sprintf("set-tail-%x-old%v-new%d", tail, oldToo, nw)}
+		neighbours(sc)
+		newVal := append(randBytes(rnd, nw), tail...)
+		if oldToo {
+			sc.PrepKeys["k"] = append(randBytes(rnd, 9), tail...)
+		}
+		sc.Op = childOp{Op: "set", Key: "k", Value: newVal}
+		sc.WantNew = &kv{Present: true, Val: newVal}
+		out = append(out, sc)
+	}
+	addSetTail("\n", false, 15)
+	addSetTail("\n", true, 31)
+	addSetTail("\r\n", true, 5)
+	addSetTail(" ", false, 7)
+	addSetTail("\x00", true, 16)
+	addSetTail("\n\n", false, 0)
 	addSetColon(false, 40)
 	addSetColon(true, 5)
 	addSetColon(false, 3000)
